@@ -164,16 +164,16 @@ RunCallbacks(S, disp, cbs, i, failed, agree) ==
 \* as coded (CountFix = FALSE): one decrement of miner_count per failed CALLBACK -- delete_claim returns Ok for a
 \* claim that is already gone, so a miner with two failed callbacks in one tick is counted twice.
 \* CountFix = TRUE is the intended behaviour: one decrement per claim actually deleted.
-RECURSIVE DeleteFailed(_, _, _)
-DeleteFailed(S, failed, i) ==
+RECURSIVE DeleteFailed(_, _, _, _)
+DeleteFailed(S, failed, i, fix) ==
   IF i > Len(failed) THEN S
   ELSE LET r == DeleteClaim(S, failed[i])
-           counted == r.ok /\ (~CountFix \/ HasClaim(S, failed[i]))
-       IN  DeleteFailed(IF counted THEN [r.st EXCEPT !.minerCount = @ - 1] ELSE r.st, failed, i + 1)
+           counted == r.ok /\ (~fix \/ HasClaim(S, failed[i]))
+       IN  DeleteFailed(IF counted THEN [r.st EXCEPT !.minerCount = @ - 1] ELSE r.st, failed, i + 1, fix)
 
 Dispatched(S) == SelectSeq(S.queue, LAMBDA ev : Scanned(S, ev) /\ HasClaim(S, ev.m))
 
-Tick(S, cbs) ==
+TickWith(S, cbs, fix) ==
   LET disp == Dispatched(S)
       S1 == [S EXCEPT !.queue = SelectSeq(@, LAMBDA ev : ~Scanned(S, ev)), !.firstCron = S.epoch + 1]
       fit == /\ Len(cbs) = Len(disp)
@@ -181,11 +181,13 @@ Tick(S, cbs) ==
                                         /\ (disp[i].p = "bad" => ~cbs[i].ok)
   IN  IF ~fit THEN [ok |-> TRUE, st |-> S, disp |-> disp, agree |-> FALSE]
       ELSE LET r  == RunCallbacks(S1, disp, cbs, 1, <<>>, TRUE)
-               S2 == DeleteFailed(r.st, r.failed, 1)
+               S2 == DeleteFailed(r.st, r.failed, 1, fix)
                t  == CurrentTotal(S2)
            IN  [ok |-> TRUE, disp |-> disp, agree |-> r.agree,
                 st |-> [S2 EXCEPT !.snapPledge = S2.pledge, !.snapQa = t.qa, !.snapRaw = t.raw,
                                   !.epoch = @ + 1]]
+
+Tick(S, cbs) == TickWith(S, cbs, CountFix)
 
 Do(S, call) == IF call.a = "Tick" THEN Tick(S, call.cbs) ELSE DoSimple(S, call)
 
@@ -225,6 +227,9 @@ StoredTotals(S) ==
   /\ S.totRaw = SumOver(S.claims, AboveMin(S.claims), "raw")
   /\ S.totQa  = SumOver(S.claims, AboveMin(S.claims), "qa")
 MinerCountExact(S) == S.minerCount = Cardinality(DOMAIN S.claims)
+\* (the same as a step formula, so that a recorded trace is blamed at the step that breaks it)
+MinerCountStep(S, T) ==
+  T.minerCount - S.minerCount = Cardinality(DOMAIN T.claims) - Cardinality(DOMAIN S.claims)
 
 \* what CurrentTotalPower REPORTS is frozen by the tick: right after a tick it is the rule applied to the claims
 \* (and the pledge total) of that moment; no message between two ticks changes it
